@@ -167,11 +167,11 @@ def _ints(x):
     return [int(v) for v in np.asarray(x).ravel()]
 
 
-def _view(cx, form, skip):
+def _view(cx, form, skip, as_str=False):
     name, args, kw, pick = form
     kw = dict(kw)
     if skip is not None:
-        kw['skip'] = list(skip)
+        kw['skip'] = skip[0] if (as_str and len(skip) == 1) else list(skip)     # plain string instead of [string]
     with warnings.catch_warnings():
         warnings.simplefilter('ignore')
         v = cx.basis.get_dofs(*args, **kw)
@@ -186,11 +186,11 @@ def _apply(view, op, other=None):
             return {'out': _ints(view.flatten())}
         if k == 'all':
             nm = op['names']
-            return {'out': _ints(view.all(nm[0] if op.get('as_str') else nm))}
+            return {'out': _ints(view.all(nm[0] if (op.get('as_str') and len(nm) == 1) else nm))}
         if k == 'keep':
-            return {'out': _ints(view.keep(op['names']).flatten())}
+            return {'out': _ints(view.keep(op['names'][0] if (op.get('as_str') and len(op['names']) == 1) else op['names']).flatten())}
         if k == 'drop':
-            return {'out': _ints(view.drop(op['names']).flatten())}
+            return {'out': _ints(view.drop(op['names'][0] if (op.get('as_str') and len(op['names']) == 1) else op['names']).flatten())}
         if k == 'keepdrop':
             return {'out': _ints(view.keep(op['names']).drop(op['names2']).flatten())}
         if k == 'chain':                   # successive filters on the same view; 'all' (if present) is the last step
@@ -311,19 +311,22 @@ def execute(rec):
             forms = [forms[i % len(forms)] for i in pick]
         op = q['op']
         res = []
-        for form in forms:
+        variants = [(f, False) for f in forms]
+        if q.get('strlist'):        # the same name filter given as a one-element list and as a plain string
+            variants = [(forms[0], False), (forms[0], True)]
+        for form, as_str in variants:
             def call():
-                v = _view(cx, form, q['skip'] if q['skip'] else None)
+                v = _view(cx, form, q['skip'] if q['skip'] else None, as_str=as_str)
                 other = None
                 if op['k'] == 'or':
                     j2 = op['sel2']
                     other = _view(cx, cx.forms(j2, sels[j2])[0], q['skip'] if q['skip'] else None)
-                return _apply(v, op, other)
+                return _apply(v, dict(op, as_str=1) if as_str else op, other)
             r, err = DC.lib(call, 300)
             if err and form[0].startswith('dict'):
                 continue        # the dictionary form is deprecated by the library itself (DeprecationWarning): if a version
                                 # stops accepting it, that is not a disagreement between ways of naming a selection
-            item = {'form': form[0], 'err': err}
+            item = {'form': form[0] + ('+str' if as_str else ('+list' if q.get('strlist') else '')), 'err': err}
             item.update(r if r else ({'dict': []} if op['k'] in ('nodal', 'edge', 'facet', 'interior') else {'out': []}))
             res.append(item)
         if op['k'] == 'or' and res and all(it['err'] for it in res):
@@ -335,6 +338,8 @@ def execute(rec):
                        'op': {'k': op['k'], 'names': list(op['names']), 'names2': list(op['names2']), 'ids2': ids2,
                               'steps': [{'o': st['o'], 'names': list(st['names'])} for st in op.get('steps', [])]},
                        'res': res})
+        if q.get('strlist'):
+            events[-1]['strlist'] = 1
     return events
 
 
@@ -419,6 +424,13 @@ def plan(rng, mesh, elem, depth, comp=None):
                                     'forms': [i]})
         for ns in singles[:2]:
             queries.append({'a': 'Query', 'sel': j, 'skip': [], 'op': _op('all', ns, as_str=1), 'forms': [0]})
+        # every name filter entry point with a plain string and with a one-element list (longest names first: a name that
+        # contains another one, 'u_n' / 'u^2^1', is where a substring match would show)
+        for i, nm in enumerate(sorted(names, key=lambda x: (-len(x), x))[:4]):
+            for k in ('drop', 'keep', 'all'):
+                queries.append({'a': 'Query', 'sel': j, 'skip': [], 'op': _op(k, [nm]), 'forms': [i], 'strlist': 1})
+            queries.append({'a': 'Query', 'sel': j, 'skip': [nm], 'op': _op('flatten'), 'forms': [i + 1], 'strlist': 1})
+            queries.append({'a': 'Query', 'sel': j, 'skip': [nm], 'op': _op('keep', names), 'forms': [i], 'strlist': 1})
         if len(names) >= 2:
             queries.append({'a': 'Query', 'sel': j, 'skip': [], 'op': _op('keepdrop', names, singles[0]), 'forms': [0]})
             queries.append({'a': 'Query', 'sel': j, 'skip': [], 'op': _op('keepdrop', pair[0], singles[-1]),
@@ -476,23 +488,28 @@ def focus(kind):
     C, X, V, D = DC.C, (lambda *s: {'comp': list(s)}), (lambda s: {'vec': s}), (lambda s: {'dg': s})
     return {
         'line': [C('ElementLineP1'), C('ElementLineP2'), C('ElementLineHermite'), C('ElementLineMini'),
-                 C('ElementLinePp', 3)],
+                 C('ElementLinePp', 3), X(C('ElementLineP1'), C('ElementLineP2'))],
         'tri': [C('ElementTriP1'), C('ElementTriP2'), C('ElementTriP3'), C('ElementTriArgyris'), C('ElementTriMorley'),
                 C('ElementTriRT1'), C('ElementTriRT2'), C('ElementTriN1'), C('ElementTriN2'), C('ElementTriBDM1'),
                 C('ElementTriMini'), C('ElementTriCR'), C('ElementTriP0'), C('ElementTri15ParamPlate'),
                 C('ElementTriHermite'), V(C('ElementTriP2')), D(C('ElementTriP1')),
                 X(C('ElementTriP2'), C('ElementTriP1')), X(V(C('ElementTriP2')), C('ElementTriP1')),
                 X(C('ElementTriRT1'), C('ElementTriP0')), X(C('ElementTriMini'), C('ElementTriP1')),
-                X(C('ElementTriMorley'), C('ElementTriN1'))],
+                X(C('ElementTriMorley'), C('ElementTriN1')),
+                X(C('ElementTriP1'), C('ElementTriP2')), X(C('ElementTriP1'), C('ElementTriP2'), C('ElementTriP2')),
+                X(C('ElementTriP1'), C('ElementTriP0')), X(C('ElementTriP1'), V(C('ElementTriP2')), C('ElementTriMini'))],
         'quad': [C('ElementQuad1'), C('ElementQuad2'), C('ElementQuadS2'), C('ElementQuadBFS'), C('ElementQuadRT1'),
-                 C('ElementQuadN1'), C('ElementQuadP', 3), X(C('ElementQuad2'), C('ElementQuad1'))],
+                 C('ElementQuadN1'), C('ElementQuadP', 3), X(C('ElementQuad2'), C('ElementQuad1')),
+                 X(C('ElementQuad1'), C('ElementQuad2')), X(C('ElementQuad0'), C('ElementQuad1'), C('ElementQuad2'))],
         'tet': [C('ElementTetP1'), C('ElementTetP2'), C('ElementTetRT1'), C('ElementTetN1'), C('ElementTetCCR'),
                 C('ElementTetMini'), C('ElementTetCR'), V(C('ElementTetP2')), D(C('ElementTetN1')),
                 X(C('ElementTetN1'), C('ElementTetRT1')), X(C('ElementTetP2'), C('ElementTetP1')),
                 X(C('ElementTetRT1'), C('ElementTetP0')), X(C('ElementTetN1'), C('ElementTetP1')),
-                X(C('ElementTetCCR'), C('ElementTetN1'), C('ElementTetRT1'))],
+                X(C('ElementTetCCR'), C('ElementTetN1'), C('ElementTetRT1')),
+                X(C('ElementTetP1'), C('ElementTetP2')), X(C('ElementTetP1'), C('ElementTetRT1'), C('ElementTetCCR'))],
         'hex': [C('ElementHex1'), C('ElementHex2'), C('ElementHexS2'), C('ElementHexRT1'), C('ElementHexSkeleton0'),
-                X(C('ElementHex2'), C('ElementHex1')), X(C('ElementHexS2'), C('ElementHexRT1'))],
+                X(C('ElementHex2'), C('ElementHex1')), X(C('ElementHexS2'), C('ElementHexRT1')),
+                X(C('ElementHex1'), C('ElementHex2'))],
         'wedge': [C('ElementWedge1')],
     }[kind]
 
